@@ -56,6 +56,15 @@ pub fn generate(tier: &str, rng: &mut Rng) -> Vec<String> {
         }
         out.push(c.line());
     }
+    // many tiny messages buffered at once (seed C07g)
+    for _ in 0..(if thorough { 200 } else { 16 }) {
+        out.push(gen_dec_many(rng, false).line());
+    }
+    // compressible messages, the limit between their compressed and uncompressed size (seed C01g)
+    for i in 0..(if thorough { 300 } else { 12 }) {
+        let e = [tonic::codec::CompressionEncoding::Gzip, tonic::codec::CompressionEncoding::Deflate, tonic::codec::CompressionEncoding::Zstd][i % 3];
+        out.push(gen_dec_compressible(rng, e, i < 3 && (thorough || i == 0)).line());
+    }
     // one frame above 64 KiB with more frames behind it in the same chunk (seed C07f)
     for _ in 0..(if thorough { 400 } else { 40 }) {
         out.push(gen_dec_big(rng, false).line());
